@@ -83,3 +83,22 @@ impl Header {
         Ok(())
     }
 }
+
+#[cfg(feature = "verif")]
+impl Header {
+    pub(crate) fn verif_decode(bytes: &[u8]) -> Result<crate::verif::HeaderFields> {
+        let h = HeaderInner::verif_from_bytes(bytes)?;
+        Ok((h.header_version, h.vec_version, h.computed_version, h.stamp, h.format))
+    }
+
+    pub(crate) fn verif_encode(f: crate::verif::HeaderFields) -> Vec<u8> {
+        HeaderInner {
+            header_version: f.0,
+            vec_version: f.1,
+            computed_version: f.2,
+            stamp: f.3,
+            format: f.4,
+        }
+        .verif_to_bytes()
+    }
+}
